@@ -33,10 +33,18 @@ let handle line =
       let evs = List.filter (fun s -> s <> "") evs in
       let (st, outs) = f_run (layout_of lay) (fopts_of_bits (int_of_string bits)) (bool_of_tok numpad) (List.map fevent_of_tok evs) in
       "R " ^ tok_of_bool (f_ongoing st) ^ " " ^ String.concat " " (List.map tok_of_str outs)
+  | "FO" :: lay :: bits :: numpad :: evs ->
+      let evs = List.filter (fun s -> s <> "") evs in
+      let obs = f_run_obs (layout_of lay) (fopts_of_bits (int_of_string bits)) (bool_of_tok numpad) (List.map fevent_of_tok evs) in
+      "R " ^ String.concat " " (List.map (fun (t, o) -> tok_of_str t ^ "/" ^ tok_of_bool o) obs)
   | ["PKV"; bits; rb; pend; v] ->
       let pend = if pend = "n" then None else Some (n_of_int (int_of_string pend)) in
       let (rb', pend') = process_key_value (fopts_of_bits (int_of_string bits)) (str_of_tok rb) pend (str_of_tok v) in
       "R " ^ tok_of_str rb' ^ " " ^ (match pend' with None -> "n" | Some c -> string_of_int (int_of_n c))
+  | ["S12"; bits; p; v] ->
+      "R " ^ tok_of_str (rule_table reph_spec (fopts_of_bits (int_of_string bits)) (str_of_tok p) (str_of_tok v))
+  | ["S13"; p] ->
+      let p = str_of_tok p in "R " ^ tok_of_bool (wf_hasanta p) ^ " " ^ tok_of_str (reph_spec p)
   | ["PING"] -> "R pong"
   | _ -> "E bad request"
 
